@@ -132,6 +132,22 @@ theorem long_name_roundtrip (attr : String) (name : Str) (attrs : List (Str × S
       simp only [Option.map_some, Function.comp_apply, hk, hstr, writtenValue, if_true, h1, stripWs_quoted]
   exact ⟨trivial, (C05i.long_name_restored attr _ _ name hlook).1, (C05i.long_name_restored attr _ _ name hlook).2⟩
 
+/-- **a text attribute goes out and comes back**: written in quotes because its definition is STRING, read with its quotes into the
+dictionary, stripped of them by the post-processing (for every text, also one with blanks at its ends or quotes inside) -/
+theorem string_attribute_roundtrip (defs : List RDef) (lvl : Level) (k v : Str)
+    (hdef : defs.any (fun d => d.level == lvl && d.name == k && defType d.definition == "STRING".toList) = true) :
+    stripStrings defs lvl (attrsOf [(k, writtenValue true v)]) = [(k, v)] := by
+  simp only [attrsOf, List.foldl_cons, List.foldl_nil, assocSet, writtenValue, if_true, stripWs_quoted, stripStrings, List.map_cons, List.map_nil,
+    hdef]
+  simp [stripQuotes]
+
+/-- a value of an attribute that is not defined as STRING on that level is left as it was read -/
+theorem other_attribute_untouched (defs : List RDef) (lvl : Level) (k v : Str)
+    (hdef : defs.any (fun d => d.level == lvl && d.name == k && defType d.definition == "STRING".toList) = false) :
+    stripStrings defs lvl [(k, v)] = [(k, v)] := by
+  simp only [stripStrings, List.map_cons, List.map_nil, hdef]
+  rfl
+
 /-- a name of at most 32 characters is left alone by the writer -/
 theorem short_name_untouched (attr : String) (name : Str) (attrs : List (Str × Str)) (h : name.length ≤ 32) :
     prepLong attr name attrs = (name, attrs) := by
